@@ -1481,3 +1481,436 @@ func (p *Prog) mustStoreField(field string) map[*ssa.Function]bool {
 	p.setMemo(key, must)
 	return must
 }
+
+// ---- C01.NIL, second clause: a field the code believes may be nil is used only where a test says it is not ----
+
+// astStructTypes: the struct types reachable from Workflow (the nodes the parser builds from the input).
+func astStructTypes(p *Prog) map[string]bool {
+	if m, ok := p.memo("astStructTypes").(map[string]bool); ok {
+		return m
+	}
+	out := map[string]bool{}
+	root := p.Named("Workflow")
+	scope := p.Main.Types.Scope()
+	var visitType func(t types.Type)
+	var visit func(n *types.Named)
+	visitType = func(t types.Type) {
+		switch u := t.(type) {
+		case *types.Pointer:
+			visitType(u.Elem())
+		case *types.Slice:
+			visitType(u.Elem())
+		case *types.Map:
+			visitType(u.Elem())
+		case *types.Named:
+			if u.Obj().Pkg() != p.Main.Types {
+				return
+			}
+			if it, ok := u.Underlying().(*types.Interface); ok {
+				if it.NumMethods() == 0 {
+					return
+				}
+				for _, n := range scope.Names() {
+					tn, ok := scope.Lookup(n).(*types.TypeName)
+					if !ok {
+						continue
+					}
+					nt, ok := tn.Type().(*types.Named)
+					if !ok {
+						continue
+					}
+					if _, isStruct := nt.Underlying().(*types.Struct); !isStruct {
+						continue
+					}
+					if types.Implements(types.NewPointer(nt), it) || types.Implements(nt, it) {
+						visit(nt)
+					}
+				}
+				return
+			}
+			visit(u)
+		}
+	}
+	visit = func(n *types.Named) {
+		name := typeStr(n)
+		if out[name] {
+			return
+		}
+		st, ok := n.Underlying().(*types.Struct)
+		if !ok {
+			return
+		}
+		out[name] = true
+		for i := 0; i < st.NumFields(); i++ {
+			visitType(st.Field(i).Type())
+		}
+	}
+	if root != nil {
+		visit(root)
+	}
+	p.setMemo("astStructTypes", out)
+	return out
+}
+
+type nilFieldEngine struct {
+	p        *Prog
+	believed map[string]bool
+}
+
+// guardedAt: at instruction (b, idx) of fn the field path of w (a load of root.f1...fn) is known not to be nil:
+// (1) a nil test of a load of the same path dominates the instruction and its nil outcome cannot reach it within the
+// iteration; (2) a value that cannot be nil (an allocation, make) was stored into the path by a dominating store; (3) the
+// result of a function that returns nil/empty whenever its argument is nil was tested non-empty, with the path as the
+// argument; (4) the path starts at a parameter and every call site guards the corresponding path of its argument.
+func (e *nilFieldEngine) guardedAt(fn *ssa.Function, w ssa.Value, b *ssa.BasicBlock, idx int, depth int) bool {
+	same := samePathLoads(fn, w)
+	root, chain := fieldPathOf(w)
+	// (1) and (3)
+	for _, tb := range fn.Blocks {
+		ifi, ok := tb.Instrs[len(tb.Instrs)-1].(*ssa.If)
+		if !ok {
+			continue
+		}
+		if !(tb == b || tb.Dominates(b)) || tb == b {
+			continue
+		}
+		stop := map[*ssa.BasicBlock]bool{}
+		for _, x := range fn.Blocks {
+			if x.Dominates(tb) {
+				stop[x] = true
+			}
+		}
+		reach := func(s *ssa.BasicBlock) bool {
+			if stop[s] {
+				return false
+			}
+			return s == b || reachableBlocks([]*ssa.BasicBlock{s}, stop)[b]
+		}
+		if v, ns, ok := nilTest(ifi); ok && same[v] {
+			if !reach(tb.Succs[ns]) {
+				return true
+			}
+			continue
+		}
+		// (3) len(g(path)) == k (k > 0), len(...) > 0, g(path) != nil
+		if bad := e.emptyEdge(fn, ifi, same); bad >= 0 && !reach(tb.Succs[bad]) {
+			return true
+		}
+	}
+	// (2) a dominating store of a fresh value into the same path
+	ok2 := false
+	eachInstr(fn, func(sb *ssa.BasicBlock, si int, in ssa.Instruction) {
+		st, ok := in.(*ssa.Store)
+		if !ok {
+			return
+		}
+		fa, ok := st.Addr.(*ssa.FieldAddr)
+		if !ok || len(chain) == 0 || fieldAddrName(fa) != chain[len(chain)-1] {
+			return
+		}
+		r2, c2 := fieldPathOf(fa.X)
+		if r2 != root || !sameChain(c2, chain[:len(chain)-1]) {
+			return
+		}
+		switch unwrap(st.Val).(type) {
+		case *ssa.Alloc, *ssa.MakeMap, *ssa.MakeSlice, *ssa.MakeChan, *ssa.MakeClosure:
+			if instrDominates(sb, si, b, idx) {
+				ok2 = true
+			}
+		}
+	})
+	if ok2 {
+		return true
+	}
+	// the object was built in this function with the field set: root is an allocation whose field got a fresh value
+	// (4) callers
+	prm, isParam := root.(*ssa.Parameter)
+	if !isParam || depth > 3 {
+		return false
+	}
+	j := -1
+	for i, q := range fn.Params {
+		if q == prm {
+			j = i
+		}
+	}
+	callers := e.p.callersOf(fn)
+	if j < 0 || len(callers) == 0 {
+		return false
+	}
+	for _, edge := range callers {
+		site := edge.Site
+		if site == nil {
+			return false
+		}
+		cc := site.Common()
+		k := j
+		var arg ssa.Value
+		if cc.IsInvoke() {
+			if k == 0 {
+				arg = cc.Value
+			}
+			k--
+		}
+		if arg == nil && k >= 0 && k < len(cc.Args) {
+			arg = cc.Args[k]
+		}
+		if arg == nil {
+			return false
+		}
+		caller := site.Parent()
+		// the same chain below the argument, as a load in the caller: find one, or reason on the argument's own path
+		ar, ac := fieldPathOf(unwrap(arg))
+		want := append(append([]string{}, ac...), chain...)
+		var probe ssa.Value
+		eachInstr(caller, func(_ *ssa.BasicBlock, _ int, in ssa.Instruction) {
+			if v, ok := in.(ssa.Value); ok && probe == nil {
+				switch in.(type) {
+				case *ssa.UnOp, *ssa.Field:
+					if r3, c3 := fieldPathOf(v); r3 == ar && sameChain(c3, want) {
+						probe = v
+					}
+				}
+			}
+		})
+		if probe == nil {
+			return false
+		}
+		if !e.guardedAt(caller, probe, site.Block(), instrIndex(site), depth+1) {
+			return false
+		}
+	}
+	return true
+}
+
+// emptyEdge: the If tests the result of a module function applied to the path for being non-empty (len(r) == k with k > 0,
+// len(r) > 0, len(r) != 0, r != nil), and that function returns nil or an empty value on every path on which its argument
+// is nil. It returns the successor taken when the result is empty (the path may be nil there), or -1.
+func (e *nilFieldEngine) emptyEdge(fn *ssa.Function, ifi *ssa.If, same map[ssa.Value]bool) int {
+	bo, ok := ifi.Cond.(*ssa.BinOp)
+	if !ok {
+		return -1
+	}
+	var res ssa.Value
+	emptySucc := -1
+	if call, ok := bo.X.(*ssa.Call); ok {
+		if bi, ok := call.Call.Value.(*ssa.Builtin); ok && bi.Name() == "len" {
+			k, isK := constInt(bo.Y)
+			if !isK {
+				return -1
+			}
+			res = call.Call.Args[0]
+			switch {
+			case bo.Op == token.EQL && k > 0:
+				emptySucc = 1
+			case bo.Op == token.NEQ && k == 0:
+				emptySucc = 1
+			case bo.Op == token.GTR && k >= 0:
+				emptySucc = 1
+			case bo.Op == token.GEQ && k > 0:
+				emptySucc = 1
+			case bo.Op == token.EQL && k == 0:
+				emptySucc = 0
+			default:
+				return -1
+			}
+		}
+	}
+	if res == nil {
+		if v, ns, ok := nilTest(ifi); ok {
+			res, emptySucc = v, ns
+		}
+	}
+	if res == nil {
+		return -1
+	}
+	call, ok := res.(*ssa.Call)
+	if !ok {
+		return -1
+	}
+	g := staticCallee(&call.Call)
+	if g == nil || g.Blocks == nil || !inModule(g) {
+		return -1
+	}
+	for i, a := range call.Call.Args {
+		if !same[a] || i >= len(g.Params) {
+			continue
+		}
+		if nilArgGivesEmpty(g, g.Params[i]) {
+			return emptySucc
+		}
+	}
+	return -1
+}
+
+// nilArgGivesEmpty: the entry block of g tests the parameter for nil and the nil outcome returns the constant nil as first
+// result without doing anything else.
+func nilArgGivesEmpty(g *ssa.Function, prm *ssa.Parameter) bool {
+	b := g.Blocks[0]
+	v, ns, ok := nilTest(b.Instrs[len(b.Instrs)-1])
+	if !ok || v != ssa.Value(prm) {
+		return false
+	}
+	s := b.Succs[ns]
+	ret, ok := s.Instrs[len(s.Instrs)-1].(*ssa.Return)
+	if !ok || len(s.Instrs) != 1 || len(ret.Results) == 0 {
+		return false
+	}
+	return isNilConst(ret.Results[0])
+}
+
+func c01NilFields(c *Ctx) {
+	p := c.P
+	ast := astStructTypes(p)
+	e := &nilFieldEngine{p: p, believed: map[string]bool{}}
+	for _, fn := range p.Funcs {
+		for _, b := range fn.Blocks {
+			if len(b.Instrs) == 0 {
+				continue
+			}
+			if v, _, ok := nilTest(b.Instrs[len(b.Instrs)-1]); ok {
+				if _, ch := fieldPathOf(v); len(ch) > 0 {
+					f := ch[len(ch)-1]
+					if i := strings.Index(f, "."); i > 0 && ast[f[:i]] {
+						e.believed[f] = true
+					}
+				}
+			}
+		}
+	}
+	for _, fn := range p.Funcs {
+		occ := map[string]int{}
+		eachInstr(fn, func(b *ssa.BasicBlock, idx int, in ssa.Instruction) {
+			var ops []*ssa.Value
+			done := map[ssa.Value]bool{}
+			for _, op := range in.Operands(ops) {
+				w := *op
+				if w == nil || done[w] {
+					continue
+				}
+				done[w] = true
+				_, ch := fieldPathOf(w)
+				if len(ch) == 0 || !e.believed[ch[len(ch)-1]] {
+					continue
+				}
+				why := derefOf(in, w)
+				if why == "" {
+					why = e.passedToUser(in, w)
+				}
+				if why == "" {
+					continue
+				}
+				f := ch[len(ch)-1]
+				occ[f]++
+				construct := fmt.Sprintf("%s|use of %s#%d", FuncName(fn), f, occ[f])
+				if e.guardedAt(fn, w, b, idx, 0) {
+					c.ok(construct, in.Pos(), "the field is tested for nil elsewhere in the module; here a test of the same field path (in this function or at every call site), a store of a fresh value or a non-empty result derived from it comes first")
+				} else {
+					c.bad(construct, in.Pos(), why+": the field is nil when its key is absent from the input (the code tests it for nil elsewhere) and nothing on the way to this use says it is not")
+				}
+			}
+		})
+	}
+}
+
+// needsNonNil: the function uses its parameter (field access, load, method on a nil interface, ...) somewhere that no nil
+// test of the parameter protects, itself or by handing it to a function that does.
+func (e *nilFieldEngine) needsNonNil(g *ssa.Function, j int, depth int) bool {
+	if g.Blocks == nil || j >= len(g.Params) || depth > 2 {
+		return false
+	}
+	prm := g.Params[j]
+	switch prm.Type().Underlying().(type) {
+	case *types.Pointer, *types.Interface, *types.Map:
+	default:
+		return false
+	}
+	key := fmt.Sprintf("needsNonNil:%p:%d", g, j)
+	if v, ok := e.p.memo(key).(bool); ok {
+		return v
+	}
+	e.p.setMemo(key, false) // recursion guard
+	res := false
+	eachInstr(g, func(b *ssa.BasicBlock, idx int, in ssa.Instruction) {
+		if res {
+			return
+		}
+		uses := derefOf(in, prm) != ""
+		if !uses {
+			if call, ok := in.(ssa.CallInstruction); ok {
+				cc := call.Common()
+				for _, h := range e.p.calleesOf(call) {
+					for k, a := range cc.Args {
+						kk := k
+						if cc.IsInvoke() {
+							kk++
+						}
+						if a == ssa.Value(prm) && inModule(h) && e.needsNonNil(h, kk, depth+1) {
+							uses = true
+						}
+					}
+				}
+			}
+		}
+		if !uses {
+			return
+		}
+		// protected by a dominating nil test of the parameter whose nil outcome does not come here
+		for _, tb := range g.Blocks {
+			v, ns, ok := nilTest(tb.Instrs[len(tb.Instrs)-1])
+			if !ok || v != ssa.Value(prm) {
+				// or a result derived from the parameter that is nil/empty whenever the parameter is
+				ok = false
+				if ifi, isIf := tb.Instrs[len(tb.Instrs)-1].(*ssa.If); isIf {
+					if es := e.emptyEdge(g, ifi, map[ssa.Value]bool{prm: true}); es >= 0 {
+						ns, ok = es, true
+					}
+				}
+			}
+			if !ok || tb == b || !tb.Dominates(b) {
+				continue
+			}
+			stop := map[*ssa.BasicBlock]bool{}
+			for _, x := range g.Blocks {
+				if x.Dominates(tb) {
+					stop[x] = true
+				}
+			}
+			s := tb.Succs[ns]
+			if stop[s] || !(s == b || reachableBlocks([]*ssa.BasicBlock{s}, stop)[b]) {
+				return
+			}
+		}
+		res = true
+	})
+	e.p.setMemo(key, res)
+	return res
+}
+
+// passedToUser: the value is an argument of a call of a module function that needs it to be non-nil.
+func (e *nilFieldEngine) passedToUser(in ssa.Instruction, w ssa.Value) string {
+	call, ok := in.(ssa.CallInstruction)
+	if !ok {
+		return ""
+	}
+	cc := call.Common()
+	if _, isB := cc.Value.(*ssa.Builtin); isB {
+		return ""
+	}
+	gs := e.p.calleesOf(call)
+	for k, a := range cc.Args {
+		if a != w {
+			continue
+		}
+		kk := k
+		if cc.IsInvoke() {
+			kk++
+		}
+		for _, g := range gs {
+			if inModule(g) && e.needsNonNil(g, kk, 0) {
+				return "passed to " + FuncName(g) + ", which uses it without a nil test"
+			}
+		}
+	}
+	return ""
+}
